@@ -63,9 +63,9 @@ Print Assumptions C01a_conforms_check.
 
 (* pass by pass *)
 (* ConstantFolder: the folded list has exactly the outcome of the original (both directions) *)
-Theorem C01a_fold_preserves : forall plen pbool ext okn lv b b',
-  forallb (gstmt okn plen pbool lv) b = true -> fold_list b = Ok b' ->
-  (forall rho, exec_list ext b' rho = exec_list ext b rho) /\ forallb (gstmt okn plen pbool lv) b' = true.
+Theorem C01a_fold_preserves : forall plen pbool pint ext okn lv b b',
+  forallb (gstmt okn plen pbool pint lv) b = true -> fold_list b = Ok b' ->
+  (forall rho, exec_list ext b' rho = exec_list ext b rho) /\ forallb (gstmt okn plen pbool pint lv) b' = true.
 Proof. exact fold_list_sound. Qed.
 Print Assumptions C01a_fold_preserves.
 
@@ -73,9 +73,9 @@ Print Assumptions C01a_fold_preserves.
 Theorem C01a_multi_preserves : forall plen,
   (forall a, prot plen a = true -> user_name a = true) ->
   forall rho0, (forall a n, plen a = Some n -> exists vs, rho0 a = Some (VTup vs) /\ List.length vs = n) ->
-  forall pbool ext lv b b',
-  forallb (gstmt user_name plen pbool lv) b = true -> multi_list b = Ok b' ->
-  forallb (gstmt visible plen pbool lv) b' = true /\
+  forall pbool pint ext lv b b',
+  forallb (gstmt user_name plen pbool pint lv) b = true -> multi_list b = Ok b' ->
+  forallb (gstmt visible plen pbool pint lv) b' = true /\
   bsim plen rho0 user_name (exec_list ext b) (exec_list ext b').
 Proof. exact multi_list_sound. Qed.
 Print Assumptions C01a_multi_preserves.
@@ -86,9 +86,10 @@ Theorem C01a_rewriter_preserves : forall plen,
   (forall a, prot plen a = true -> user_name a = true) ->
   forall rho0, (forall a n, plen a = Some n -> exists vs, rho0 a = Some (VTup vs) /\ List.length vs = n) ->
   forall pbool, (forall a, pbool a = true -> exists vs, rho0 a = Some (VTup vs) /\ forallb is_vbool vs = true) ->
+  forall pint, (forall a, pint a = true -> exists vs, rho0 a = Some (VTup vs) /\ forallb is_vint vs = true) ->
   forall ext b st l st',
-  forallb (gstmt visible plen pbool []) b = true -> forallb notup b = true -> st_ok plen st ->
-  rw_list rw_fuel st b = Ok (l, st') -> rw_post plen rho0 pbool ext st l st' (exec_list ext b).
+  forallb (gstmt visible plen pbool pint []) b = true -> forallb notup b = true -> st_ok plen st ->
+  rw_list rw_fuel st b = Ok (l, st') -> rw_post plen rho0 pbool pint ext st l st' (exec_list ext b).
 Proof. exact rw_list_sound. Qed.
 Print Assumptions C01a_rewriter_preserves.
 
